@@ -18,15 +18,18 @@ MANIFEST = {
             "RFC 7950 if-feature grammar (any parenthesisation and white space) with parse tree e whose features resolve "
             "compiles, and the compiled prefix code evaluates under every feature assignment to the denotation of e (and/or/"
             "not); C11_iffeature_eval_prefix_correct for the evaluator alone. (2) range / length restrictions along typedef "
-            "chains (Properties_C11_restrict.v): C11_range_compile_iff - on every text of the range-arg grammar the compiler "
-            "accepts exactly the legal restrictions (keywords resolved against the base, numbers within the built-in type, "
-            "parts ascending and disjoint, every part inside a part of the base) and returns the parts written; "
-            "C11_range_chain_intersection - the effective restriction of the last typedef of a chain accepts exactly the "
-            "values every restriction of the chain accepts; C11_range_rejects_widening; C11_range_validate_agrees "
-            "(lyplg_type_validate_range decides membership); C11_range_total / C11_range_parts_in_type_partial for ARBITRARY "
-            "texts. The model follows the code and carries its defects, each with a refutation theorem and a replayed "
-            "witness: a range with juxtaposed numbers (1 50) widens its base, 1|| makes the base check read beyond the parts "
-            "array, 1..9..3 / 127 | max / decimal64 - / +5 are accepted, 3..7 under 1..5 | 6..9 / 0..min / 1.50 are rejected. "
+            "chains (Properties_C11_restrict.v, model of the code as of /repo 72878af + b6c3725): C11_range_compile_iff - on every "
+            "text of the range-arg grammar the compiler accepts exactly the legal restrictions (keywords resolved against the "
+            "base, numbers within the built-in type, parts ascending and disjoint, every part inside a part of the base) and "
+            "returns the parts written; C11_range_chain_intersection - the effective restriction of the last typedef of a chain "
+            "accepts exactly the values every restriction of the chain accepts. For ARBITRARY argument texts: "
+            "C11_range_rejects_widening (whatever compiles under a restricted base lies inside it), "
+            "C11_range_chain_never_widens, C11_range_compiled_ascending, C11_range_validate_agrees (lyplg_type_validate_range "
+            "decides membership), C11_range_no_overread (the base check never indexes beyond the parts array), "
+            "C11_range_total, C11_range_parts_in_type. The model follows the code and carries its remaining leniencies with "
+            "refutation theorems and replayed witnesses: 1..9..3 / 127 | max / decimal64 - / +5 are accepted, 3..7 under "
+            "1..5 | 6..9 / 0..min / 1.50 are rejected. The former defects (1 50 widened its base; 1|| read beyond the parts "
+            "array) are fixed and kept as regression Examples. "
             "Tie: extracted models vs lys_compile_iffeature / lysc_iffeature_value and vs lys_compile_type_range called "
             "directly and through lys_parse_mem on generated typedef chains (depth 1-4, int8..uint64, decimal64 fd 1/2/9/18, "
             "string / binary length) with lyd_value_validate probes at every boundary +-1 (T2). "
@@ -45,9 +48,10 @@ MANIFEST = {
             "schema_compile_amend.c), pattern restrictions, enum / bits restrictions, load order - these are covered by "
             "search only (comps_flatten.py). In the compiled prints compared by flatten-equiv the when statements are removed "
             "(the flattened twin re-roots the XPath; its meaning is compared on instance documents) and the order among "
-            "children added by the augments of nested uses follows libyang (RFC 7950 does not fix it). Findings listed in "
-            "known_findings.d/restrict.json and flatten.json (nested refine: inner wins; leaf-list min-elements with a typedef "
-            "default; NULL dereference in lys_compile_type on a chain of three typedefs).",
+            "children added by the augments of nested uses follows libyang (RFC 7950 does not fix it). The three defects the "
+            "search found (nested refine: inner won; leaf-list min-elements kept a typedef default; NULL dereference in "
+            "lys_compile_type on a chain of three typedefs) are fixed in /repo (9a6fde6, 7484206, bf5769e): nothing is "
+            "attributed or avoided any more, a reappearance is a violation.",
     "technique": "Coq proof over hand-written models + differential correspondence (extracted OCaml vs C) for if-feature and "
                  "restrictions; generated-module differential testing (structured vs hand-flattened, load orders) for the rest",
 }
